@@ -286,7 +286,7 @@ static int runOnce(const Config &c)
         }
         base->setBounds(b);
         auto siB = std::make_shared<ob::SpaceInformation>(base);
-        vcBase = std::make_shared<vp::RecordingValidityChecker>(siB, env, false);
+        vcBase = std::make_shared<vp::RecordingValidityChecker>(siB, env, c.trace);
         siB->setStateValidityChecker(vcBase);
         siB->setStateValidityCheckingResolution(c.res);
         siB->setup();
@@ -512,8 +512,13 @@ static int runOnce(const Config &c)
         nvalid += q.valid ? 1 : 0;
     std::cout << "queries n=" << nq << " polls=" << polls.load() << " recorded=" << log.size() << " valid=" << nvalid << "\n";
     if (c.trace)
+    {
         for (auto &q : log)
             std::cout << "q " << (q.valid ? 1 : 0) << " " << vp::showReals(q.reals) << "\n";
+        if (vcBase)
+            for (auto &q : vcBase->takeLog())
+                std::cout << "qb " << (q.valid ? 1 : 0) << " " << vp::showReals(q.reals) << "\n";
+    }
 
     try
     {
